@@ -118,8 +118,9 @@ def RangePriv.response (pv : RangePriv) (s t : Int) : Int × Int × Int × Int :
 section
 variable {G : Type} (o : GroupOps G) (hash : G → G → Int)
 
-/-- the commitments and private values of `create_attest_pair` (no failure modelled here) -/
-def rangeCommit (g h : G) (value a b : Int) (rnd : RangeRand) : Commitment G × RangePriv :=
+/-- the commitments and private values of `create_attest_pair`'s algebra for an arbitrary m2 (the honest code takes
+    m2 = mst - m1 - m4²; a prover who deviates only there is `cheatRound` below) -/
+def rangeCommitWith (g h : G) (value a b : Int) (rnd : RangeRand) (m2 : Int) : Commitment G × RangePriv :=
   let raa := rnd.raa0 * rnd.raa0
   let w2 := rnd.w * rnd.w
   let c := o.mul (o.pow g value) (o.pow h rnd.r)
@@ -127,9 +128,7 @@ def rangeCommit (g h : G) (value a b : Int) (rnd : RangeRand) : Commitment G × 
   let c2 := o.div (o.pow g (b + 1)) c
   let ca := o.mul (o.pow c1 (b - value + 1)) (o.pow h rnd.ra)
   let caa := o.mul (o.pow ca w2) (o.pow h raa)
-  let mst := mstOf rnd.w value a b
   let m3 := rnd.m4 * rnd.m4
-  let m2 := mst - rnd.m1 - m3
   let rst := w2 * ((b - value + 1) * rnd.r + rnd.ra) + raa
   let r3 := rst - rnd.r1 - rnd.r2
   let ca1 := o.mul (o.pow g rnd.m1) (o.pow h rnd.r1)
@@ -137,6 +136,10 @@ def rangeCommit (g h : G) (value a b : Int) (rnd : RangeRand) : Commitment G × 
   let ca3 := o.div caa (o.mul ca1 ca2)
   ({ c := c, c1 := c1, c2 := c2, ca := ca, ca1 := ca1, ca2 := ca2, ca3 := ca3, caa := caa },
    { m1 := rnd.m1, m2 := m2, m3 := m3, r1 := rnd.r1, r2 := rnd.r2, r3 := r3 })
+
+/-- the commitments and private values of `create_attest_pair` (no failure modelled here) -/
+def rangeCommit (g h : G) (value a b : Int) (rnd : RangeRand) : Commitment G × RangePriv :=
+  rangeCommitWith o g h value a b rnd (mstOf rnd.w value a b - rnd.m1 - rnd.m4 * rnd.m4)
 
 /-- `create_attest_pair(PK, value, a, b, bitspace)`.
     `none` models "no attestation comes out": for `mst < 0` the code raises (`sqrt` of a negative number), for
@@ -167,6 +170,17 @@ def rangeCheck (g h : G) (pd : RangePublic G) (a b s t x y u v : Int) : Bool :=
   && o.eq (o.mul (o.pow g y) (o.pow h v)) (o.mul (o.mul cm.ca1 (o.pow cm.ca2 t)) cm.ca3)
   && decide (x > 0)
   && decide (y > 0)
+
+/-- a prover who follows `create_attest_pair` for ANY value (no failure for values outside the range) but chooses m2
+    itself, answers the challenge (s, t) with `generate_response`, and is checked -/
+def cheatRound (g h : G) (value a b : Int) (rnd : RangeRand) (m2 s t : Int) : Bool :=
+  let (com, pv) := rangeCommitWith o g h value a b rnd m2
+  let raa := rnd.raa0 * rnd.raa0
+  let el := elCreate o hash (b - value + 1) (-rnd.r) rnd.ra g h com.c1 h rnd.el
+  let sqr1 := sqrCreate o hash rnd.w raa com.ca h rnd.sq1r2 rnd.sq1
+  let sqr2 := sqrCreate o hash rnd.m4 pv.r3 g h rnd.sq2r2 rnd.sq2
+  let (x, y, u, v) := pv.response s t
+  rangeCheck o hash g h { com := com, el := el, sqr1 := sqr1, sqr2 := sqr2 } a b s t x y u v
 
 /-- one query to the verifier: its range, the challenge and the answers -/
 structure RangeQuery where
